@@ -46,6 +46,11 @@ func runC20(x *mc.X) {
 	cctx := mc.Pick(x, "caller-context", []string{"background", "cancelled-before", "cancelled-after-return", "cancelled-at-T/2", "deadline-before-answer"})
 	second := mc.Pick(x, "second-request", []string{"none", "during", "after"})
 	logger := mc.Pick(x, "logger", []string{"", "text"})
+	window := mc.Pick(x, "swr-window", []string{"100000", "7"}) // 7: only 2 s of the window are left when the stale response is served
+	qualified := x.Choose("stored-no-cache-names-the-validators", 2) == 1
+	if window == "7" && second != "none" {
+		x.Skip() // a later request would fall outside the window and be validated in the foreground
+	}
 
 	opt := world.Opt{Logger: logger}
 	teff := 5 * time.Second
@@ -85,7 +90,7 @@ func runC20(x *mc.X) {
 	defer w.Close()
 	baseline, _ := bubbleGoroutines()
 	lm := httpDate(w.Epoch.Add(-secs(1000)))
-	h := H("Cache-Control", "max-age=5, stale-while-revalidate=100000")
+	h := H("Cache-Control", cc("max-age=5", "stale-while-revalidate="+window, ifs(qualified, `no-cache="ETag, Last-Modified"`)))
 	if validators == "etag" || validators == "both" {
 		h = append(h, [2]string{"ETag", `"v1"`})
 	}
@@ -131,7 +136,7 @@ func runC20(x *mc.X) {
 		switch outcome {
 		case "304":
 			if c.Header.Get("If-None-Match") != "" || c.Header.Get("If-Modified-Since") != "" {
-				return o.Respond(c, RS{Status: 304, NoTok: true, H: H("Cache-Control", "max-age=5, stale-while-revalidate=100000")}), nil
+				return o.Respond(c, RS{Status: 304, NoTok: true, H: H("Cache-Control", cc("max-age=5", "stale-while-revalidate="+window))}), nil
 			}
 			return o.Respond(c, RS{Status: 200, H: h}), nil
 		case "200":
